@@ -191,6 +191,12 @@ unsafe fn take_string(w: &mut World, p: *mut c_char, expect: &str, what: &str) {
 
 unsafe fn set_profile(w: &mut World, p: u8) {
     let cfg = w.cfg;
+    fill_profile(w, cfg, p, true);
+    w.calls += 15;
+    w.cfg_profile = p;
+}
+
+unsafe fn fill_profile(w: &mut World, cfg: *mut Config, p: u8, churn: bool) {
     let tiny = CString::new(format!("{}/fixtures/micro_db", verif_root())).unwrap();
     let phonetic = CString::new("avro_phonetic").unwrap();
     let probhat = CString::new(format!("{}/data/Probhat.json", std::env::var("VERIF_REPO").ok().filter(|s| !s.is_empty()).unwrap_or_else(|| "/repo".to_string()))).unwrap();
@@ -207,6 +213,21 @@ unsafe fn set_profile(w: &mut World, p: u8) {
     if !riti_config_set_database_dir(cfg, tiny.as_ptr()) {
         w.problems.push("riti_config_set_database_dir rejected an existing directory".into());
     }
+    // the Config handed to the C context has a past: every boolean setter has been called with the opposite value first (a
+    // front-end keeps one Config object and flips options on it); the Rust twin is created from a Config that saw each setter once
+    if churn {
+        riti_config_set_suggestion_include_english(cfg, lonely_ansi);
+        riti_config_set_phonetic_suggestion(cfg, lonely_ansi);
+        riti_config_set_fixed_suggestion(cfg, lonely_ansi);
+        riti_config_set_fixed_auto_vowel(cfg, false);
+        riti_config_set_fixed_auto_chandra(cfg, false);
+        riti_config_set_fixed_traditional_kar(cfg, p != 2);
+        riti_config_set_fixed_old_reph(cfg, false);
+        riti_config_set_fixed_numpad(cfg, false);
+        riti_config_set_fixed_old_kar_order(cfg, p < 2);
+        riti_config_set_ansi_encoding(cfg, !lonely_ansi);
+        riti_config_set_smart_quote(cfg, false);
+    }
     riti_config_set_suggestion_include_english(cfg, !lonely_ansi);
     riti_config_set_phonetic_suggestion(cfg, !lonely_ansi);
     riti_config_set_fixed_suggestion(cfg, !lonely_ansi);
@@ -220,8 +241,6 @@ unsafe fn set_profile(w: &mut World, p: u8) {
     riti_config_set_fixed_old_kar_order(cfg, p >= 2);
     riti_config_set_ansi_encoding(cfg, lonely_ansi);
     riti_config_set_smart_quote(cfg, true);
-    w.calls += 15;
-    w.cfg_profile = p;
 }
 
 impl World {
@@ -348,7 +367,14 @@ impl World {
             }
             Act::CtxNew => {
                 self.ctx = riti_context_new_with_config(self.cfg);
-                self.twin = Some(RitiContext::new_with_config(&*self.cfg));
+                {
+                    std::env::set_var("XDG_DATA_HOME", &self.xdg);
+                    let t = riti_config_new();
+                    let p = self.cfg_profile;
+                    fill_profile(self, t, p, false);
+                    self.twin = Some(RitiContext::new_with_config(&*t));
+                    riti_config_free(t);
+                }
                 self.last_len = 0;
                 self.last_nonempty = false;
                 self.calls += 1;
